@@ -229,6 +229,14 @@ def rule_target(ctx: Ctx, rule: str = "C11.target"):
         rep.check("self.sm._get_initial_state()" in v, rule, it.loc(), "initial activation enters the state chosen by _get_initial_state", it.key, f"return {v}")
 
 
+def rule_resumed_by_value(ctx: Ctx):
+    """C11.target: a stored state is resumed as the state whose *value* it is: the map the accessors and the start-value lookup use is
+    keyed by state values only (an id stored there as well would win over an equal value of another state, or make an id resumable)."""
+    from . import c10
+
+    c10.rule_mapping(ctx, rule="C11.target")
+
+
 def rule_restore_gate(ctx: Ctx):
     """C11.guard: a restored machine activates only when the saved state says the original had not been activated (the model
     of a copy under construction may still be empty, so looking at it would re-enter the initial state)."""
@@ -262,4 +270,4 @@ def rule_first_event_goes_through_the_loop(ctx: Ctx):
     c13.rule_send(ctx, rule="C11.who")
 
 
-RULES = [rule_identity, rule_guard, rule_who, rule_constructor, rule_reactivation, rule_sentinel, rule_target, rule_model, rule_restore_gate, rule_activation_not_requeued, rule_right_engine_activates, rule_first_event_goes_through_the_loop]
+RULES = [rule_identity, rule_guard, rule_who, rule_constructor, rule_reactivation, rule_sentinel, rule_target, rule_model, rule_restore_gate, rule_activation_not_requeued, rule_right_engine_activates, rule_first_event_goes_through_the_loop, rule_resumed_by_value]
